@@ -117,8 +117,10 @@ func zzC12_blockwise_client() {
 	upload := symChoose("upload", 2) == 1
 	tok := message.Token{0xB1, 0xB2}
 	c := &zzCall{token: tok}
+	var held *pool.Message // the request the application passed to Do: its own until Do returns and it releases it
 	go func() {
 		req := cc.AcquireMessage(context.Background())
+		held = req
 		req.SetToken(tok)
 		_ = req.SetPath("/big")
 		if upload {
@@ -133,6 +135,7 @@ func zzC12_blockwise_client() {
 			c.tok = append([]byte(nil), c.resp.Token()...)
 			c.body, _ = c.resp.ReadBody()
 		}
+		symAssert(!symReleased(req) && bytes.Equal(req.Token(), tok), "the request passed to Do is still the application's when Do returns")
 		cc.ReleaseMessage(req)
 		c.done = true
 	}()
@@ -186,6 +189,10 @@ func zzC12_blockwise_client() {
 			symSetNow(time.Unix(0, now))
 			cc.CheckExpirations(time.Unix(0, now))
 			symIdle()
+			if !c.done && held != nil {
+				symAssert(!symReleased(held), "housekeeping during a pending transfer does not recycle the request the application holds")
+				symCover("swept-while-pending")
+			}
 		}
 	}
 	if !c.done {
